@@ -99,6 +99,7 @@ def run(ctx):
         n = r.choice([1, 1, 2, 3, max_n]) if r.random() < 0.7 else r.randint(1, max_n)
         style = dict(st)
         style["eol"] = "\r\n" if r.random() < 0.3 else "\n"
+        style["crlf_header"] = r.random() < 0.6         # a file with CRLF line ends has them on its header lines too (most of the time)
         style["noncanon"] = r.random() < 0.4
         style["final_newline"] = r.random() < 0.8
         if fname == "fastaw" and r.random() < 0.5:
@@ -139,10 +140,18 @@ def run(ctx):
                     import io
                     f = io.BytesIO(fc["data"])
                     reader = bnp.io.parser.NumpyFileReader(f, bt)
+                    first_part = None
+                    if r.random() < 0.25 and len(fc["raws"]) >= 2:
+                        # chunk-wise reading taken up and abandoned after one chunk; the rest of the file is read in one go
+                        first_part = reader.read_chunk(min_chunk_size=r.randint(max(len(x) for x in fc["raws"]) + 2, len(fc["data"]) + 2))
+                        ctx.count("read_chunk_then_read")
                     chunk = reader.read()
-                    if r.random() < 0.3:
+                    if chunk is not None and r.random() < 0.3:
                         chunk.get_data()        # the buffer parsed once before (parsing must not change what the buffer holds)
-                    table = chunk.get_data()
+                    table = chunk.get_data() if chunk is not None else None
+                    if first_part is not None:
+                        fp_ = first_part.get_data()
+                        table = fp_ if table is None or len(table) == 0 else np.concatenate([fp_, table])
                 else:
                     table = tables.open_case(path, fc, lazy=lazy, buffer=buffer).read()
                 n_got = len(table)
